@@ -26,6 +26,24 @@ Proof.
   intros ls H. induction H as [|l ls Hl _ IH]; [reflexivity|]. cbn [map]. rewrite IH. f_equal. lia.
 Qed.
 
+Lemma rd_roundtrip : forall d, wf_rd d -> rd_from_api (rd_to_api d) = Some d.
+Proof.
+  intros [a b|a b|a b] H; cbn [wf_rd rd_to_api rd_from_api] in *.
+  - destruct (N.ltb_spec 65535 a); [lia|reflexivity].
+  - rewrite ip4_roundtrip by lia. destruct (N.ltb_spec 65535 b); [lia|reflexivity].
+  - destruct (N.ltb_spec 65535 b); [lia|reflexivity].
+Qed.
+
+Lemma rd_from_api_wf : forall x d, api_rd_in_range x -> rd_from_api x = Some d -> wf_rd d.
+Proof.
+  intros [|a b|s b|a b] d Hr H; cbn [rd_from_api api_rd_in_range] in *; try discriminate.
+  - destruct (N.ltb_spec 65535 a); [discriminate|]. injection H as <-. cbn. unfold u32_ok in *. lia.
+  - destruct (ip4_of_string s) as [a|] eqn:E; [|discriminate].
+    destruct (N.ltb_spec 65535 b); [discriminate|]. injection H as <-. cbn.
+    split; [eapply ip4_of_string_lt; eassumption|lia].
+  - destruct (N.ltb_spec 65535 b); [discriminate|]. injection H as <-. cbn. unfold u32_ok in *. lia.
+Qed.
+
 Section NlriProofs.
   Variable v6p : N -> list N.
   Variable v6r : list N -> option N.
@@ -38,8 +56,16 @@ Section NlriProofs.
   Theorem nlri_roundtrip : forall n, v6_contract v6p v6r -> v6_noslash -> wf_nlri n ->
     net_from_api v6r (nlri_to_api v6p n) = Some n.
   Proof.
-    intros n [Hrt Hn4] Hns Hwf. destruct n as [a m|a m|ls a m|ls a m]; cbn [wf_nlri] in Hwf;
+    intros n [Hrt Hn4] Hns Hwf. destruct n as [a m|a m|ls a m|ls a m|ls d a m|ls d a m]; cbn [wf_nlri] in Hwf;
       cbn [nlri_to_api net_from_api].
+    5: { destruct Hwf as [Ha [Hm [Hd [Hne [Hl Hb]]]]]. rewrite rd_roundtrip, ip4_roundtrip by assumption.
+         destruct (N.ltb_spec 32 m); [lia|]. destruct ls as [|l ls]; [contradiction|]. cbn [length Nat.eqb orb].
+         destruct (N.ltb_spec 255 (24 * N.of_nat (S (length ls)) + 64 + m)); [cbn [length] in Hb; lia|].
+         rewrite labels_mod_id by exact Hl. reflexivity. }
+    5: { destruct Hwf as [Ha [Hm [Hd [Hne [Hl Hb]]]]]. rewrite rd_roundtrip, Hn4, Hrt by assumption.
+         destruct (N.ltb_spec 128 m); [lia|]. destruct ls as [|l ls]; [contradiction|]. cbn [length Nat.eqb orb].
+         destruct (N.ltb_spec 255 (24 * N.of_nat (S (length ls)) + 64 + m)); [cbn [length] in Hb; lia|].
+         rewrite labels_mod_id by exact Hl. reflexivity. }
     - destruct Hwf as [Ha Hm]. rewrite ip4_noslash, ip4_roundtrip by exact Ha.
       destruct (N.ltb_spec 255 m); [lia|]. destruct (N.ltb_spec 32 m); [lia|]. reflexivity.
     - destruct Hwf as [Ha Hm]. rewrite Hns, Hn4, Hrt by exact Ha.
@@ -63,9 +89,23 @@ Section NlriProofs.
     - rewrite map_length. lia.
   Qed.
 
-  Theorem net_from_api_wf : forall x n, v6_range -> net_from_api v6r x = Some n -> wf_nlri n.
+  Theorem net_from_api_wf : forall x n, v6_range -> api_nlri_in_range x -> net_from_api v6r x = Some n -> wf_nlri n.
   Proof.
-    intros x n Hrg H. destruct x as [|s len|ls s len|]; cbn [net_from_api] in H; try discriminate.
+    intros x n Hrg Hin H. destruct x as [|s len|ls s len|ls d s len|]; cbn [net_from_api] in H; try discriminate.
+    3: { cbn [api_nlri_in_range] in Hin.
+         destruct (rd_from_api d) as [d'|] eqn:Ed; [|discriminate]. pose proof (rd_from_api_wf d d' Hin Ed) as Hd.
+         destruct (ip4_of_string s) as [a|] eqn:E4.
+         + destruct (N.ltb_spec 32 len); [discriminate|]. cbn [orb] in H.
+           destruct (Nat.eqb (length ls) 0) eqn:El; [discriminate|]. cbn [orb] in H.
+           destruct (255 <? _) eqn:Eb in H; [discriminate|]. injection H as <-.
+           split; [eapply ip4_of_string_lt; eassumption|]. split; [lia|]. split; [exact Hd|].
+           apply labels_wf; [exact El|]. rewrite N.add_assoc. exact Eb.
+         + destruct (v6r s) as [a|] eqn:E6; [|discriminate].
+           destruct (N.ltb_spec 128 len); [discriminate|]. cbn [orb] in H.
+           destruct (Nat.eqb (length ls) 0) eqn:El; [discriminate|]. cbn [orb] in H.
+           destruct (255 <? _) eqn:Eb in H; [discriminate|]. injection H as <-.
+           split; [eapply Hrg; eassumption|]. split; [lia|]. split; [exact Hd|].
+           apply labels_wf; [exact El|]. rewrite N.add_assoc. exact Eb. }
     - destruct (existsb _ s); [discriminate|].
       destruct (ip4_of_string s) as [a|] eqn:E4.
       + destruct (N.ltb_spec 255 len); [discriminate|]. destruct (N.ltb_spec 32 len); [discriminate|].
@@ -89,7 +129,13 @@ End NlriProofs.
 (* the encoders cannot panic on a well-formed NLRI, in either build profile *)
 Theorem encode_nlri_safe : forall p n, wf_nlri n -> exists b, encode_nlri p n = Ok b.
 Proof.
-  intros p n Hwf. destruct n as [a m|a m|ls a m|ls a m]; cbn [wf_nlri] in Hwf; unfold encode_nlri, addr_bytes.
+  intros p n Hwf. destruct n as [a m|a m|ls a m|ls a m|ls d a m|ls d a m]; cbn [wf_nlri] in Hwf; unfold encode_nlri, addr_bytes.
+  5: { destruct Hwf as [_ [Hm [_ [_ [_ Hb]]]]].
+       destruct (N.ltb_spec 255 ((24 * N.of_nat (length ls)) mod 256 + 64 + m)); [lia|]. cbn [andb].
+       destruct (Nat.leb_spec (N.to_nat ((m + 7) / 8)) 4); [|lia]. eexists. reflexivity. }
+  5: { destruct Hwf as [_ [Hm [_ [_ [_ Hb]]]]].
+       destruct (N.ltb_spec 255 ((24 * N.of_nat (length ls)) mod 256 + 64 + m)); [lia|]. cbn [andb].
+       destruct (Nat.leb_spec (N.to_nat ((m + 7) / 8)) 16); [|lia]. eexists. reflexivity. }
   - destruct Hwf as [_ Hm]. destruct (Nat.leb_spec (N.to_nat ((m + 7) / 8)) 4); [|lia]. eexists. reflexivity.
   - destruct Hwf as [_ Hm]. destruct (Nat.leb_spec (N.to_nat ((m + 7) / 8)) 16); [|lia]. eexists. reflexivity.
   - destruct Hwf as [_ [Hm [_ [_ Hb]]]].
